@@ -22,7 +22,9 @@ RULE = ("requests = (generated schema with all six kinds + wrappers + enum inter
         "abstract types, list fields, arguments as literals/variables], variable assignment, world seed); a request is "
         "distinct by (schema, document, variables, seed) and non-trivial when the response has >=2 keys or a nested "
         "object/list or >=1 field error; histories = random order of all requests of one Schema object + re-execution "
-        "of an earlier request at the end")
+        "of an earlier request at the end; PLUS a fixed block (corr/C04_runtimes.py: 8 documents x 6 worlds x "
+        "{graphql_blocking, process_graphql_query, py_gql.graphql on asyncio with coroutine resolvers completing in reverse / "
+        "mixed / hashed order}) compared with the specification, deterministic (reads no randomness)")
 ASSUMPTIONS = [
     "argument coercion: the Lean side coerces the argument NODES itself with C07's model (ExecArgs.lean, Coerce.lean) and renders the "
     "kwargs canonically; the Python reference spec still reads the table computed by the real coerce_argument_values (C07 owns its correctness)",
@@ -31,6 +33,8 @@ ASSUMPTIONS = [
     "a document that makes validate_ast raise never reaches execution (none does on /repo HEAD after fixes V1/V2/V7; C05 reports such documents)",
 ]
 TRUSTED = [
+    "corr/C04_runtimes.py: asyncio completion order is made a function of the request with `await asyncio.sleep(0)` repeated k times "
+    "(FIFO ready queue of the event loop); all completion orders / thread pools are C08's",
     "corr/exec_common.py: world function (mirrored by PyGqlModel/World.lean), AST->JSON converter, canonicalisation, Python reference of the spec algorithm",
     "gen/operation.py: generator of valid operations (every generated document is re-validated with the real validate_ast)",
     "Props/C04_history.lean models the Document store as never written by a request; the tie to the code is the oracle of "
@@ -233,6 +237,10 @@ def run(ctx):
     per_schema = ctx.n(22, 40)
     use_lean = ctx.model_ok and ctx.driver.available()
     lean_cases = []
+    # deterministic slice first (reads no randomness): the same fixed requests through process_graphql_query (generic
+    # Executor) and through py_gql.graphql on an asyncio loop with resolvers completing OUT OF DOCUMENT ORDER
+    from corr import C04_runtimes
+    C04_runtimes.run(ctx)
     for si in range(n_schemas):
         if ctx.time_left() < 15:
             ctx.notes.append("stopped early at schema %d (time)" % si)
@@ -506,6 +514,9 @@ def run_corpus(ctx):
 
 def replay(ctx, data, quiet=False):
     inp = data.get("input", data)
+    if inp.get("part") == "runtimes":
+        from corr import C04_runtimes
+        return C04_runtimes.replay(ctx, inp)
     if inp.get("stream") == "disable-introspection":
         class _C3:
             def __init__(self):
